@@ -41,13 +41,16 @@ const (
 	kRecThrowRef    // ( T 'z' ) //{l} R   T <- 'b' / %{l}: R runs where the throw happens, possibly at the start of the rule
 	kOptNRef        // ( N R 'y' )?        nullable on its own, the reference behind a nullable rule that sorts after A and B
 	kStarNRef       // ( N R 'y' )*
+	kRecToA         // R //{l} A           the recovery expression is rule A (runs where a throw of l happens inside R)
+	kRecToB         // R //{l} B
 	kNumRefKinds
+	kRefT = kNumRefKinds // T                   reference to the fixed throwing rule T <- 'b' / %{l} (extra menu item behind the others)
 )
 
 const c07Terminals = kRef
 const c07RefKinds = kNumRefKinds - kRef
 
-func c07MenuSize() int { return c07Terminals + c07RefKinds*len(c07Names) }
+func c07MenuSize() int { return c07Terminals + c07RefKinds*len(c07Names) + 1 }
 
 type c07Desc struct {
 	kind int
@@ -59,6 +62,9 @@ func c07Decode(k int) c07Desc {
 		return c07Desc{kind: k, ref: -1}
 	}
 	k -= c07Terminals
+	if k >= c07RefKinds*len(c07Names) {
+		return c07Desc{kind: kRefT, ref: -1}
+	}
 	return c07Desc{kind: kRef + k/len(c07Names), ref: k % len(c07Names)}
 }
 
@@ -88,6 +94,8 @@ func c07Make(d c07Desc) ast.Expression {
 		e := ast.NewAndCodeExpr(p)
 		e.Code = ast.NewCodeBlock(p, "{ return true, nil }")
 		return e
+	case kRefT:
+		return c07Ref("T")
 	}
 	r := c07Ref(c07Names[d.ref])
 	switch d.kind {
@@ -157,6 +165,16 @@ func c07Make(d c07Desc) ast.Expression {
 		e := ast.NewZeroOrMoreExpr(p)
 		e.Expr = c07Seq(c07Ref("N"), r, lit("y"))
 		return e
+	case kRecToA, kRecToB:
+		e := ast.NewRecoveryExpr(p)
+		e.Expr = r
+		if d.kind == kRecToA {
+			e.RecoverExpr = c07Ref("A")
+		} else {
+			e.RecoverExpr = c07Ref("B")
+		}
+		e.Labels = []ast.FailureLabel{"l"}
+		return e
 	case kRecThrowRef:
 		e := ast.NewRecoveryExpr(p)
 		e.Expr = c07Seq(c07Ref("T"), lit("z"))
@@ -218,8 +236,10 @@ func reflrSlotNullable(d c07Desc, ruleNull []bool) bool {
 		return false
 	case kEmpty, kPred, kAnd, kNot, kOpt, kStar, kStarLitRef, kChoicePredRef, kChoicePredNRef, kOptNRef, kStarNRef:
 		return true
-	case kRef, kLabel, kAct, kPlus, kChoiceFirst, kChoiceSecond, kRecover, kSeqOptRef:
+	case kRef, kLabel, kAct, kPlus, kChoiceFirst, kChoiceSecond, kRecover, kSeqOptRef, kRecToA, kRecToB:
 		return ruleNull[d.ref]
+	case kRefT:
+		return false // 'b' / %{l}: matches 'b', or ends in a throw (whatever follows is then not at the same position for sure: approx)
 	case kPlusNRef:
 		return ruleNull[d.ref] // N is nullable
 	case kRecThrowRef:
@@ -229,7 +249,7 @@ func reflrSlotNullable(d c07Desc, ruleNull []bool) bool {
 }
 
 // reflr returns whether the grammar has a cycle in its first-call graph.
-func reflr(rules []*c07Rule) (cyclic bool, illFormed bool, approx bool) {
+func reflr(rules []*c07Rule) (cyclic bool, illFormed bool, approx bool, throwOnly bool) {
 	n := len(rules)
 	null := make([]bool, n)
 	for changed := true; changed; {
@@ -252,11 +272,32 @@ func reflr(rules []*c07Rule) (cyclic bool, illFormed bool, approx bool) {
 			}
 		}
 	}
-	edge := make([][]bool, n)
+	// node n is the fixed rule T <- 'b' / %{l}: it calls nothing itself, but its throw runs the recovery
+	// expression of every handler for l in whose guarded expression it is (transitively, at initial
+	// positions) evaluated
+	const tNode = 2
+	edge := make([][]bool, n+1)
+	edge[tNode] = make([]bool, n+1)
+	type handler struct{ guarded, recovery int }
+	var handlers []handler
 	for i, r := range rules {
-		edge[i] = make([]bool, n)
+		edge[i] = make([]bool, n+1)
 		for _, s := range r.slots {
 			s.force()
+			switch s.d.kind {
+			case kRefT:
+				edge[i][tNode] = true
+				approx = true
+			case kRecThrowRef:
+				edge[i][tNode] = true
+				handlers = append(handlers, handler{tNode, s.d.ref})
+			case kRecToA:
+				handlers = append(handlers, handler{s.d.ref, 0})
+				approx = true
+			case kRecToB:
+				handlers = append(handlers, handler{s.d.ref, 1})
+				approx = true
+			}
 			if s.d.ref >= 0 && s.d.kind != kStarLitRef {
 				// ( 'a' R )* : R is only called after 'a' has consumed input
 				edge[i][s.d.ref] = true
@@ -277,21 +318,41 @@ func reflr(rules []*c07Rule) (cyclic bool, illFormed bool, approx bool) {
 			}
 		}
 	}
-	// transitive closure
-	for k := 0; k < n; k++ {
-		for i := 0; i < n; i++ {
-			for j := 0; j < n; j++ {
-				if edge[i][k] && edge[k][j] {
-					edge[i][j] = true
+	closure := func(e [][]bool) [][]bool {
+		m := len(e)
+		c := make([][]bool, m)
+		for i := range e {
+			c[i] = append([]bool(nil), e[i]...)
+		}
+		for k := 0; k < m; k++ {
+			for i := 0; i < m; i++ {
+				for j := 0; j < m; j++ {
+					if c[i][k] && c[k][j] {
+						c[i][j] = true
+					}
 				}
 			}
 		}
+		return c
 	}
-	for i := 0; i < n; i++ {
-		if edge[i][i] {
-			cyclic = true
+	hasCycle := func(c [][]bool) bool {
+		for i := range c {
+			if c[i][i] {
+				return true
+			}
+		}
+		return false
+	}
+	plain := closure(edge)
+	plainCyclic := hasCycle(plain)
+	// throw edges: T -> recovery rule of every handler whose guarded rule reaches T (or is T)
+	for _, h := range handlers {
+		if h.guarded == tNode || plain[h.guarded][tNode] {
+			edge[tNode][h.recovery] = true
 		}
 	}
+	cyclic = hasCycle(closure(edge))
+	throwOnly = cyclic && !plainCyclic
 	return
 }
 
@@ -347,11 +408,13 @@ func c07Real(rules []*c07Rule) *ast.Grammar {
 // c07Build: what the user sees. The completed grammar is handed to the real
 // BuildParser with default options, i.e. without -support-left-recursion: it
 // must be rejected when it has a first-call cycle and accepted when it has none.
-func c07Build(rules []*c07Rule, want, approx bool) {
+func c07Build(rules []*c07Rule, want, approx, throwOnly bool) {
 	symSkip("(*github.com/mna/pigeon/builder.builder).writeStaticCode")
 	var buf bytes.Buffer
 	berr := BuildParser(&buf, c07Real(rules))
-	if want {
+	if want && throwOnly {
+		symAssert(berr != nil, "C07: BuildParser without -support-left-recursion accepted a grammar with a cycle through a throw that is recovered by a handler of another rule")
+	} else if want {
 		symAssert(berr != nil, "C07: BuildParser without -support-left-recursion accepted a grammar with a first-call cycle")
 	} else if !approx {
 		symAssert(berr == nil, "C07: BuildParser rejected a grammar without a first-call cycle")
@@ -415,7 +478,7 @@ func Harness_C07a(n int) {
 	if !c07Explore(g) {
 		symNote("lazy slots not applicable: the analysis inspects node types")
 	}
-	want, ill, approx := reflr(rules)
+	want, ill, approx, throwOnly := reflr(rules)
 	symAssume(!ill)
 	symNote(c07Describe(rules))
 	have, err := PrepareGrammar(c07Real(rules))
@@ -424,16 +487,18 @@ func Harness_C07a(n int) {
 		// must then really be left-recursive
 		symAssert(errors.Is(err, ErrNoLeader), "C07: unexpected error from PrepareGrammar")
 		symAssert(want || approx, "C07: left-recursion error for a grammar without a first-call cycle")
-		c07Build(rules, want, approx)
+		c07Build(rules, want, approx, throwOnly)
 		symReach("end")
 		return
 	}
 	symDebug("grammar", c07Describe(rules), have, want)
-	if want {
+	if want && throwOnly {
+		symAssert(have, "C07: left recursion through a throw that is recovered by a handler of another rule not detected (grammar would be accepted without -support-left-recursion)")
+	} else if want {
 		symAssert(have, "C07: left recursion not detected (grammar would be accepted without -support-left-recursion)")
 	} else if !approx {
 		symAssert(!have, "C07: grammar without a first-call cycle reported as left-recursive")
 	}
-	c07Build(rules, want, approx)
+	c07Build(rules, want, approx, throwOnly)
 	symReach("end")
 }
